@@ -447,3 +447,38 @@ class C11(_AppSpec):
 
     def bounds_text(self, tier):
         return {"kernel": "pragma line p in {1,3} (quick) / {1,2,3,7}; failure line 1..14 symbolic; count = 1-2 symbolic ASCII digits; id, alias, unknown id", "pipeline": "%d documents, pragma inserted at every line boundary, 5 pragma texts, one symbolic cell" % (3 if tier == "quick" else len(_C11_DOCS)), "rules": "all 46 enabled"}
+
+
+_C08_POOL = ["#  a\n\n*  b\n+ c  \n", "a\tb  \n\n\n1. c\n1. d\n", "```\nc\n```\n\n    d\n", "# a\n### b ##\n*x* `y ` [z]( /u )\n", "> a\n>  b\n\n***\n---\n", "1. a\n   - b\n\n     c\n"]
+
+
+class C08(_AppSpec):
+    prop = "C08"
+    sym_module = "checks.fix_sym"
+    per_path_timeout = 40.0
+    rule_text = ("one symbolic path = fix of a symbolic document through the real application plus the reference parser run on the original and on the fixed text; assertion: content fingerprints (engine/oracles/rfp.py) are equal -- "
+                 "block kinds and nesting, text, inline kinds, link/image targets, code content, raw HTML; whitespace, marker characters, list numbers, code-block style, heading level and adjacent-list boundaries are projected out; "
+                 "paths where pymarkdown's HTML already differs from the reference are skipped (C03); distinct = distinct fingerprints")
+    stubs = _STUBS + ["reference parser markdown-it-py (vendored) executed symbolically on the original and the fixed text"]
+    assumptions = ["cells range over the C03 domain (U+0009, U+000A, U+0020-U+007E, U+00E9, U+03B1, U+1F600)"] + _ASSUME[1:]
+
+    def shards(self, tier):
+        out = []
+        if tier == "quick":
+            for s in docs.g1_shards(1):
+                out.append(self.job("c08", dict(s, selection="default"), budget=200.0))
+            for i, s in enumerate(docs.g2_shards(_C08_POOL[:4], replace=True)):
+                if i % 3 == 0:
+                    out.append(self.job("c08", dict(s, selection="default"), budget=300.0))
+        else:
+            for s in docs.g1_shards(2) + docs.g2_shards(_C08_POOL + docs.load_pool("mini"), replace=True):
+                out.append(self.job("c08", dict(s, selection="default"), budget=600.0))
+            for rid in _fixable_default_rules():
+                for s in docs.g1_shards(1) + docs.g2_shards(_C08_POOL[:3], replace=True)[::2]:
+                    out.append(self.job("c08", dict(s, selection="only:" + rid), budget=400.0))
+        return out
+
+    def bounds_text(self, tier):
+        if tier == "quick":
+            return {"documents": "G1 length 0..1; 4 fix-provoking skeletons, one symbolic cell at every third position", "selection": "default rule set"}
+        return {"documents": "G1 length 0..2; 6 fix-provoking skeletons + mini pool, one cell at every position", "selection": "default; each fix-capable default rule alone"}
